@@ -13,6 +13,7 @@ import (
 // C05 — accepted instruction reorderings preserve block behaviour.
 
 type c05Case struct {
+	Syn   []int      `json:"synthetic,omitempty"`
 	Segs  []prog.Seg `json:"segments"`
 	Entry uint64     `json:"entry"`
 	Text  []string   `json:"text,omitempty"`
@@ -126,7 +127,7 @@ func c05Explore(r *eng.Run, s *c07Sys, bi int) *eng.Fail {
 								cls = "control-transfer"
 							}
 							return &eng.Fail{Sig: "reordered block " + cls, What: fmt.Sprintf("original order vs order after moves %v from initial state %d: %s", np, i, d),
-								Case: c05Case{Segs: s.segs, Entry: s.entry, Text: c05Text(s), Path: np, Init: i, Block: bi}}
+								Case: c05Case{Syn: s.syn, Segs: s.segs, Entry: s.entry, Text: c05TextOf(s), Path: np, Init: i, Block: bi}}
 						}
 					}
 				}
@@ -238,13 +239,32 @@ func c05Codes(r *eng.Run) []*c07Sys {
 		}
 	}
 	rec(nil)
+	// synthetic blocks: multi-store / multi-write / multi-space instructions (alphabet of C06),
+	// every sequence of 2 and (quick: a third of) 3
+	na := len(synAlphabet())
+	for i := 0; i < na; i++ {
+		for j := 0; j < na; j++ {
+			for k := -1; k < na; k++ {
+				seq := []int{i, j}
+				if k >= 0 {
+					if r.Quick() && (i+2*j+k)%3 != 0 {
+						continue
+					}
+					seq = append(seq, k)
+				}
+				if s, err := newC07SysSyn(seq); err == nil {
+					out = append(out, s)
+				}
+			}
+		}
+	}
 	return out
 }
 
 func init() {
 	checks["C05"] = eng.Check{
 		Hist:        true,
-		Rule:        "every block of <=3 (thorough 4) instructions over an 18-word alphabet chosen around the dependency rules (three writers of x1, reader, read-modify-write, sd/ld on one base with and without a shared register, a partially overlapping sb, fence, ecall, csrrw, amoadd.w, the pseudo-jumps jal x5,+4 and beq x0,x0,+4, auipc), optionally ended by a real terminating beq/jal, followed by nops: explicit-state search over ALL orders reachable through accepted Block.Move calls (state = order; successor = fresh real code + replay + move); every reachable order is run in the real emulator from 3 initial states (aliasing and non-aliasing addresses, all registers preloaded) until pc leaves the block or a horizon, and compared (registers, writable-memory bytes, final pc, termination) with the run of the original order. A second pass walks ONE long-lived instance through a depth-2 (thorough 3) tour of accepted, rejected and undo moves and runs the emulator comparison in every node. Block moves on the 4 multi-block codes of C07: every pair of Code.Move calls leaves each instruction's address, text and single-step behaviour unchanged. Non-trivial = block with more than one reachable order.",
+		Rule:        "every block of <=3 (thorough 4) instructions over an 18-word alphabet chosen around the dependency rules (three writers of x1, reader, read-modify-write, sd/ld on one base with and without a shared register, a partially overlapping sb, fence, ecall, csrrw, amoadd.w, the pseudo-jumps jal x5,+4 and beq x0,x0,+4, auipc), optionally ended by a real terminating beq/jal, followed by nops, and every block of 2 (quick: a third of those of 3) SYNTHETIC instructions from the C06 alphabet (several stores into one / two spaces, several register writes, load+store of one space; synthetic registers hold one of three nearby addresses so that accesses alias in some initial states): explicit-state search over ALL orders reachable through accepted Block.Move calls (state = order; successor = fresh real code + replay + move); every reachable order is run in the real emulator from 3 initial states (aliasing and non-aliasing addresses, all registers preloaded) until pc leaves the block or a horizon, and compared (registers, writable-memory bytes, final pc, termination) with the run of the original order. A second pass walks ONE long-lived instance through a depth-2 (thorough 3) tour of accepted, rejected and undo moves and runs the emulator comparison in every node. Block moves on the 4 multi-block codes of C07: every pair of Code.Move calls leaves each instruction's address, text and single-step behaviour unchanged. Non-trivial = block with more than one reachable order.",
 		Assumptions: []string{"differential oracle: original order vs reordered order on the same emulator", "all registers are preloaded so the known narrow-first-read finding of C03 cannot influence the comparison"},
 		Run: func(r *eng.Run) {
 			codes := c05Codes(r)
@@ -310,7 +330,7 @@ func init() {
 				if err := json.Unmarshal(raw, &tc); err != nil {
 					panic(err)
 				}
-				s, err := newC07Sys(tc.Segs, tc.Entry)
+				s, err := sysOfCase(tc)
 				if err != nil {
 					return nil
 				}
@@ -344,7 +364,7 @@ func init() {
 			if err := json.Unmarshal(raw, &c); err != nil {
 				panic(err)
 			}
-			s, err := newC07Sys(c.Segs, c.Entry)
+			s, err := sysOfCase(c07Case{Syn: c.Syn, Segs: c.Segs, Entry: c.Entry})
 			if err != nil {
 				return nil
 			}
